@@ -39,6 +39,9 @@ type PlanC08 struct {
 	After  []SStep   `json:"after"`   // what the server sends once the client reported an established session
 	Faults FaultSpec `json:"faults"`  // server->client direction
 	Buf    int       `json:"buf"`
+	// how the scripted server shapes its first TLS flight (see RawPeer.HelloDelim)
+	HelloDelim int `json:"hello_delim,omitempty"`
+	HelloSplit int `json:"hello_split,omitempty"`
 }
 
 var optLists = [][]string{{"none"}, {"none", "tls"}, {"tls"}, {}, {"bogus"}, {"none", "none"}, {"tls", "none", "gzip"}}
@@ -203,6 +206,8 @@ func runC08(w *World, pi interface{}) {
 	peer := NewRawTCPFromConn(w, h, 0, rc.(*simnet.Conn))
 	w.Armed = true
 	sid := "sess-0001"
+	peer.HelloDelim, peer.HelloSplit = helloDelims[p.HelloDelim%len(helloDelims)], p.HelloSplit
+
 	returned := NewFlag()
 	scriptDone := NewFlag()
 	nAuth := 0
@@ -219,14 +224,23 @@ func runC08(w *World, pi interface{}) {
 			if peer.RemoteClosed().IsSet() {
 				return n
 			}
-			if peer.NeedsTLS() {
+			last := peer.LastFrame()
+			var m map[string]interface{}
+			upgrade := false
+			if st.Op == "auto" || st.Op == "session" {
+				m = serverFrame(st, sid, last, &nAuth)
+				// a confirmation of TLS: a real server upgrades right behind it
+				upgrade = fstr(m, "state") == "negotiating" && fstr(m, "encryption") == "tls" && fstr(last, "state") == "negotiating" && p.TLSCfg && st.Then == ""
+			}
+			if upgrade {
+				// the client's next bytes are its TLS hello: they are not for the cleartext reader
+				peer.PauseReader()
+			} else if peer.NeedsTLS() {
 				// the client confirmed nothing: only the server's own confirmation triggers an upgrade
 				peer.ResumeCleartext()
 			}
-			last := peer.LastFrame()
 			switch st.Op {
 			case "auto", "session":
-				m := serverFrame(st, sid, last, &nAuth)
 				peer.SendJSON(m)
 				lastSent = m
 				if s := fstr(m, "state"); s == "failed" || s == "finished" {
@@ -240,11 +254,15 @@ func runC08(w *World, pi interface{}) {
 					peer.Reset()
 					return n
 				}
-				if fstr(m, "state") == "negotiating" && fstr(m, "encryption") == "tls" && fstr(last, "state") == "negotiating" && p.TLSCfg {
-					// a confirmation of TLS: a real server upgrades now
-					peer.reader.WaitFor(time.Second)
-					if err := peer.UpgradeTLS(true); err != nil {
+				if upgrade {
+					if err := peer.UpgradeTLS(true); err == nil {
+						w.Count("server-tls-upgraded")
+					} else {
 						w.Count("server-tls-failed")
+						if c := fstr(m, "compression"); w.OnlyRules == "C09." && p.Faults.Benign() && p.CtxMs >= 2000 && (c == "" || c == "none") {
+							w.Violate("C09.client-did-not-switch-to-confirmed-encryption", "confirmation="+short(canonJSON(map[string]interface{}{"compression": m["compression"], "encryption": m["encryption"]}), 80),
+								"the server confirmed the negotiation with encryption tls and switched, the client (with a TLS configuration) did not: %v\n%s", err, h.Dump(40))
+						}
 					}
 				}
 			case "data":
